@@ -125,20 +125,20 @@ theorem withNew_rest (l1 : L) (id pre height : Nat) (it : Bool) (txids : List Na
     (withNew l1 id pre height it txids).trunkHeight = l1.trunkHeight := ⟨rfl, rfl, rfl, rfl, rfl, rfl⟩
 
 /-- the four outcomes of `confirm`: nothing written, trunk extended, trunk switched, side branch extended -/
-theorem confirm_cases (l : L) (id pre : Nat) (txs : List (Nat × Bool)) :
-    (confirm l id pre txs).1 = l ∨
+theorem confirm_cases' (l : L) (id pre : Nat) (txs : List (Nat × Bool)) :
+    confirm l id pre txs = (l, .fail) ∨
     ∃ pb, lookup l.B id = none ∧ lookup l.B pre = some pb ∧
       ((pre = l.tip ∧ ∃ l4,
           confirmTxs l id true l.trunkHeight txs 0
             (withNew (saveBlock l pre { pb with next := some id }) id pre (pb.height + 1) true (txs.map (·.1))) = some l4 ∧
-          (confirm l id pre txs).1 = { l4 with tip := id, trunkHeight := l.trunkHeight + 1 }) ∨
+          confirm l id pre txs = ({ l4 with tip := id, trunkHeight := l.trunkHeight + 1 }, .succ)) ∨
        (pre ≠ l.tip ∧ pb.height + 1 > l.trunkHeight ∧ ∃ l1 sh l4,
           handleFork l (l.trunkHeight + 2) l.tip pre (some id) l = some (l1, sh) ∧
           confirmTxs l id true sh txs 0 (withNew l1 id pre (pb.height + 1) true (txs.map (·.1))) = some l4 ∧
-          (confirm l id pre txs).1 = { l4 with tip := id, trunkHeight := pb.height + 1 }) ∨
+          confirm l id pre txs = ({ l4 with tip := id, trunkHeight := pb.height + 1 }, .succSwitch)) ∨
        (pre ≠ l.tip ∧ ¬ pb.height + 1 > l.trunkHeight ∧ ∃ l4,
           confirmTxs l id false l.trunkHeight txs 0 (withNew l id pre (pb.height + 1) false (txs.map (·.1))) = some l4 ∧
-          (confirm l id pre txs).1 = l4)) := by
+          confirm l id pre txs = (l4, .succSide))) := by
   unfold confirm
   by_cases h1 : (lookup l.B id).isSome = true
   · left; simp [h1]
@@ -183,5 +183,28 @@ theorem confirm_cases (l : L) (id pre : Nat) (txs : List (Nat × Bool)) :
             refine ⟨pb, hid, rfl, Or.inr (Or.inr ⟨fun e => h2 e, h3, l4, ?_, ?_⟩)⟩
             · rw [← hc]; simp only [withNew]
             · simp
+
+theorem confirm_cases (l : L) (id pre : Nat) (txs : List (Nat × Bool)) :
+    (confirm l id pre txs).1 = l ∨
+    ∃ pb, lookup l.B id = none ∧ lookup l.B pre = some pb ∧
+      ((pre = l.tip ∧ ∃ l4,
+          confirmTxs l id true l.trunkHeight txs 0
+            (withNew (saveBlock l pre { pb with next := some id }) id pre (pb.height + 1) true (txs.map (·.1))) = some l4 ∧
+          (confirm l id pre txs).1 = { l4 with tip := id, trunkHeight := l.trunkHeight + 1 }) ∨
+       (pre ≠ l.tip ∧ pb.height + 1 > l.trunkHeight ∧ ∃ l1 sh l4,
+          handleFork l (l.trunkHeight + 2) l.tip pre (some id) l = some (l1, sh) ∧
+          confirmTxs l id true sh txs 0 (withNew l1 id pre (pb.height + 1) true (txs.map (·.1))) = some l4 ∧
+          (confirm l id pre txs).1 = { l4 with tip := id, trunkHeight := pb.height + 1 }) ∨
+       (pre ≠ l.tip ∧ ¬ pb.height + 1 > l.trunkHeight ∧ ∃ l4,
+          confirmTxs l id false l.trunkHeight txs 0 (withNew l id pre (pb.height + 1) false (txs.map (·.1))) = some l4 ∧
+          (confirm l id pre txs).1 = l4)) := by
+  rcases confirm_cases' l id pre txs with e | ⟨pb, h1, h2, h⟩
+  · left; rw [e]
+  · right
+    refine ⟨pb, h1, h2, ?_⟩
+    rcases h with ⟨a, l4, b, e⟩ | ⟨a, a', l1, sh, l4, b, c, e⟩ | ⟨a, a', l4, b, e⟩
+    · exact Or.inl ⟨a, l4, b, by rw [e]⟩
+    · exact Or.inr (Or.inl ⟨a, a', l1, sh, l4, b, c, by rw [e]⟩)
+    · exact Or.inr (Or.inr ⟨a, a', l4, b, by rw [e]⟩)
 
 end XV.Ledger
